@@ -1087,6 +1087,11 @@ class Sim(object):
             except Violation:
                 raise
             except Exception as e:
+                if p.dead:
+                    # the process was killed inside this call (a bare `except:` of the library swallowed the kill and the
+                    # zombie ran on with all its storage primitives suppressed): what it raises afterwards never happened
+                    self.stats['raised_after_kill_instant'] += 1
+                    return None
                 tb = traceback.extract_tb(e.__traceback__)
                 loc = 'unknown'
                 for fr in reversed(tb):
